@@ -279,9 +279,12 @@ Proof.
 Qed.
 
 (* ---- using the evaluated checks on a concrete member ---- *)
+Lemma use_check_w : forall pre chk c m, forall_av pre chk = true -> wf_cw c -> m_live m = true -> wf_m c m = true ->
+  fin_of pre (absm c m) = true -> chk (absm c m) = true.
+Proof. intros pre chk c m H Hc L W P. apply (forall_av_spec pre chk H); [apply cons_absm_w; assumption | exact P]. Qed.
 Lemma use_check : forall pre chk c m, forall_av pre chk = true -> wf_c c = true -> m_live m = true -> wf_m c m = true ->
   fin_of pre (absm c m) = true -> chk (absm c m) = true.
-Proof. intros pre chk c m H Hc L W P. apply (forall_av_spec pre chk H); [apply cons_absm; assumption | exact P]. Qed.
+Proof. intros pre chk c m H Hc. apply use_check_w; [exact H | apply wf_cw_of_wf; exact Hc]. Qed.
 
 Lemma wf_pre : forall a, a_live a = true -> wf_a a = true -> fin_of pre_wf a = true.
 Proof.
